@@ -39,6 +39,13 @@ VARS3 = ['x', 'y', 'z']
 #   | ['if', [block, block, ...], else_block or None]          (first block = if, further = elif)
 #   | ['for', block] | ['while', block] | ['def', name, block] | ['call', name]                     (part 2 only)
 
+# surface forms of the two read statements: the same names are read, every one of them on every execution, whatever they hold
+P_STYLES = ['print(%s)', 'print(f"value is {%s}")', 'print(str(%s) + "!")', 'print([%s])', 'print("%%s" %% (%s,))', 'print({1: %s})', 'print(repr(%s), end="")']
+P2_STYLES = ['print(%s, %s)', 'print(f"{%s} and {%s}")', 'print((%s, %s))', 'print(%s == %s)', 'print(f"first {%s!r:>4}", f"{%s}")', 'print(%s, end=str(%s))',
+             'print(str(%s), sep=repr(%s))']
+_surface = {'style': 0}
+
+
 def render(block, indent=0, lines=None):
     """Render to source; every statement node gets its 1-based line appended in place: returns list of text lines."""
     if lines is None:
@@ -53,9 +60,9 @@ def render(block, indent=0, lines=None):
         elif k == 'add':
             lines.append(pad + '%s = %s + %s' % (s[1], s[1], s[2]))
         elif k == 'p':
-            lines.append(pad + 'print(%s)' % s[1])
+            lines.append(pad + P_STYLES[_surface['style'] % len(P_STYLES)] % s[1])
         elif k == 'p2':
-            lines.append(pad + 'print(%s, %s)' % (s[1], s[2]))
+            lines.append(pad + P2_STYLES[_surface['style'] % len(P2_STYLES)] % (s[1], s[2]))
         elif k == 'if':
             for i, b in enumerate(s[1]):
                 lines.append(pad + ('if input():' if i == 0 else 'elif input():'))
@@ -370,7 +377,11 @@ def flat_kinds(block):
 
 
 def judge(case):
-    return judge_loops(case) if case.get('part') == 2 else judge_branch(case)
+    _surface['style'] = case.get('style', 0)
+    res = judge_loops(case) if case.get('part') == 2 else judge_branch(case)
+    if case.get('style'):
+        res.classes.append('read-surface=%d' % (case['style'] % len(P_STYLES)))
+    return res
 
 
 # ---------------------------------------------------------------------------------------------------------
@@ -431,11 +442,23 @@ def statements(size, depth, names):
     return out
 
 
+def _flat(block):
+    for s in block:
+        yield s
+        for part in s[1:]:
+            if isinstance(part, list):
+                for b in (part if part and isinstance(part[0], list) and part[0] and isinstance(part[0][0], list) else [part]):
+                    if b and isinstance(b[0], list):
+                        yield from _flat(b)
+
+
 def small_programs(tier):
     max_size, depth = (4, 2) if tier == 'quick' else (5, 3)
     for size in range(1, max_size + 1):
-        for prog in blocks(size, depth, VARS2):
+        for i, prog in enumerate(blocks(size, depth, VARS2)):
             yield {'program': prog}
+            if any(st_[0] in ('p', 'p2') for st_ in _flat(prog)):
+                yield {'program': prog, 'style': 1 + i % 6}
 
 
 ENUMS = {'small': small_programs}
@@ -465,7 +488,7 @@ def _block(depth, loops=False):
 def large_programs(tier):
     # initialise-first bias keeps the "ambiguous for the unused rule" class small
     init = st.lists(st.tuples(st.just('a0'), _var).map(list), max_size=2)
-    return st.tuples(init, _block(3)).map(lambda t: {'program': t[0] + t[1]})
+    return st.tuples(init, _block(3), st.integers(0, 6)).map(lambda t: dict({'program': t[0] + t[1]}, **({'style': t[2]} if t[2] else {})))
 
 
 def loop_programs(tier):
@@ -479,7 +502,8 @@ def loop_programs(tier):
             if names:
                 prog.insert(len(defs) + pos % (len(body) + 1), ['call', names[which % len(names)]])
         return {'part': 2, 'program': prog}
-    return st.tuples(funcs, _block(2, loops=True), st.lists(st.tuples(st.integers(0, 6), st.integers(0, 1)), max_size=3)).map(assemble)
+    return st.tuples(st.tuples(funcs, _block(2, loops=True), st.lists(st.tuples(st.integers(0, 6), st.integers(0, 1)), max_size=3)).map(assemble), st.integers(0, 6)).map(
+        lambda t: dict(t[0], **({'style': t[1]} if t[1] else {})))
 
 
 def list_loop_programs(tier):
@@ -499,7 +523,7 @@ def list_loop_programs(tier):
         if wrap == 'while':
             prog = [['le', 'p'], ['while', prog]]
         return {'part': 2, 'program': prog}
-    return st.tuples(prefix, loop, tail, outer).map(assemble)
+    return st.tuples(st.tuples(prefix, loop, tail, outer).map(assemble), st.integers(0, 6)).map(lambda t: dict(t[0], **({'style': t[1]} if t[1] else {})))
 
 
 STRATEGIES = {'large': large_programs, 'loops': loop_programs, 'listloops': list_loop_programs}
